@@ -8,6 +8,19 @@ VF_NOTE = ("Trusted: Coq kernel, extraction, harness/vf.c (page table and refere
            "The byte-level page search/bisection is abstracted to its result on the page table (validated by the tie on every run, not proved). "
            "Print Assumptions: closed under the global context.")
 CHECKS = {
+ "C15": {
+  "category": "proof",
+  "text": "Proved on EncSetup.v over the template table of the CURRENT source (SrcFacts.setup_templates is regenerated from lib/vorbisenc.c + lib/modes on every run): "
+          "for ALL channels, rates, qualities/bitrates (any double incl. NaN/Inf) and ALL rounding behaviours of the float base-setting sum, template lookup returns an existing "
+          "template and a setting index inside its per-setting tables; for ALL sequences of set-up calls, one-step calls and control requests the staged state keeps that "
+          "invariant, every call returns 0/OV_EINVAL/OV_EIMPL, a failed one-step call leaves exactly the cleared state, a successful one reports the requested channels "
+          "(1..255) and rate with legal block sizes (powers of two, 64<=short<=long<=8192: the precondition of the C04/C11 theorems), and after setup_init every set request "
+          "is refused without changing anything. Per run ~500 (quick) / 12000 (thorough) argument/request histories are executed on the real code under ASan+UBSan and the "
+          "staged state after every call is compared with the extracted model; after success: analysis_init, headerout, encode, decode.",
+  "note": "Trusted: Coq kernel + vm_compute, tools/srcfacts_dump.c, extraction, ml/driver.ml (IEEE glue for the quality adjustment, hi->req store and division by channels), "
+          "harness/c15.c. Memory safety of psy/floor/residue set-up and of the encode is sampled under sanitizers, not proved. Print Assumptions: closed.",
+  "technique": "Coq proof (lookup range lemma over the generated table, invariant by induction over call histories) + exact correspondence of extracted model vs lib/vorbisenc.c under sanitizers",
+ },
  "C14": {
   "category": "proof",
   "text": "Proved on Bitrate.v for ALL sequences of candidate packet sizes, block flags and floater choices: the min/max reservoir stays in [0, reservoir]; over every "
